@@ -265,6 +265,8 @@ def patched_rng(feed):
         return
     feed = list(feed)
     o_uniform, o_rand = np.random.uniform, np.random.rand
+    unit_names = [nm for nm in ("random_sample", "random", "ranf", "sample") if hasattr(np.random, nm)]
+    o_unit = {nm: getattr(np.random, nm) for nm in unit_names}
 
     def uniform(low=0.0, high=1.0, size=None):
         if not feed:
@@ -278,11 +280,19 @@ def patched_rng(feed):
     def rand(*dims):
         return uniform(0.0, 1.0, dims if dims else None)
 
+    def unit(size=None):
+        # random_sample / random / ranf / sample of the same global generator: the next fed numbers, as they are
+        return uniform(0.0, 1.0, size)
+
     np.random.uniform, np.random.rand = uniform, rand
+    for nm in unit_names:
+        setattr(np.random, nm, unit)
     try:
         yield
     finally:
         np.random.uniform, np.random.rand = o_uniform, o_rand
+        for nm, f in o_unit.items():
+            setattr(np.random, nm, f)
 
 
 class TermEval:
@@ -711,6 +721,19 @@ class FunctionCheck:
             bad = [n for n, o in zip(self.outputs, out) if not isinstance(o, (str, type(None))) and not np.all(np.isfinite(np.asarray(o, dtype=float)))]
             return {"violated": bool(bad), "input": jsonable_vals(v), "observed": {"non-finite outputs": bad, "outputs": jsonable_vals(dict(zip(self.outputs, out)))}, "function": self.qn}
 
+        base_sat = {}
+
+        def base_ok():
+            """are the contract's hypotheses alone satisfiable? (then a contradiction that appears only together with a path condition or a
+            masked domain means `not executed there`, not a vacuous contract)"""
+            if "v" not in base_sat:
+                try:
+                    r_ = prover.prove(self.hyps, sp.false, boxes=boxes, seed=self.ck.seed)
+                    base_sat["v"] = r_.status == "refuted"
+                except Exception:
+                    base_sat["v"] = False
+            return base_sat["v"]
+
         for ci, cp in enumerate(self.code_paths):
             if cp.kind == "unsupported":
                 continue
@@ -722,6 +745,7 @@ class FunctionCheck:
                 cnt[what] = cnt.get(what, 0) + 1
                 hy = self.hyps + pc + cp.facts + ([dom] if dom is not sp.true else [])
                 ck.prove("%s/defined.%s#%d%s" % (qn, what.strip("<>"), cnt[what], tag), hy, cond, kind="defined", boxes=boxes, replay=finite_replay,
+                         unreachable_ok=base_ok if (len(self.code_paths) > 1 and (pc or dom is not sp.true)) else None,
                          complete=False,  # numbered by occurrence: the same name may denote another operation after a restructuring
                          clause="%s at %s is applied inside its domain: %s" % (what, where, str(cond)[:120]))
             for cond, exc, what, where, pc in cp.may_raise:
